@@ -649,6 +649,58 @@ def corr_complex(seed, tier):
     return R
 
 
+# ----------------------------------------------------------------------------------------------------- bootstrap members
+def corr_bootstrap(seed, tier):
+    """EOFBootstrapper.fit against XM.bootMember: the indices are re-drawn with numpy's Generator from the bootstrapper's seed
+    (oracle), the SVD factors of every member are recorded from the solver, and the model must reproduce the matrix handed to
+    the solver (the centred resample), member components, scores (projection of the ORIGINAL samples, sign-aligned with the
+    model's scores), explained variances and total variance."""
+    R = Result("bootstrap")
+    rng = np.random.default_rng(15000 + seed)
+    reqs, exps = [], []
+    for i in range({"quick": 4, "thorough": 24, "search": 10}[tier]):
+        n, p = int(rng.integers(8, 20)), int(rng.integers(2, 6))
+        k = int(rng.integers(1, min(n - 1, p) + 1))
+        nb = int(rng.integers(1, 4))
+        bseed = int(rng.choice([0, 1, int(rng.integers(2, 10**6))]))
+        A = rng.normal(size=(n, p)) @ rng.normal(size=(p, p)) + rng.normal(size=(1, p)) * 3
+        std = bool(i % 2)
+        model = xe.single.EOF(n_modes=k, solver="full", standardize=std).fit(da2d(A, "time", "x"), "time")
+        sn, fn = model.sample_name, model.feature_name
+        D = np.asarray(model.data["input_data"].transpose(sn, fn).values, dtype=float)
+        Ms = np.asarray(model.data["scores"].transpose(sn, "mode").values, dtype=float)
+        with _SvdSpy() as spy, warnings.catch_warnings():
+            warnings.simplefilter("ignore")
+            b = xe.validation.EOFBootstrapper(n_bootstraps=nb, seed=bseed)
+            b.fit(model)
+        g = np.random.default_rng(bseed)
+        R.tally("seed", "0" if bseed == 0 else ("1" if bseed == 1 else "other"))
+        R.tally("standardize", std)
+        if len(spy.calls) != nb:
+            R.cmp("one-decomposition-per-member", False, {"nb": nb}, len(spy.calls), nb)
+            continue
+        for mi in range(nb):
+            idx = g.choice(n, n, replace=True)
+            U, s_, VT = spy.calls[mi]
+            r = s_.size
+            exp = {"decomposed": spy.inputs[mi], "comps": b.data["components"].isel(n=mi).transpose(fn, "mode").values,
+                   "scores": b.data["scores"].isel(n=mi).transpose(sn, "mode").values,
+                   "expvar": b.data["explained_variance"].isel(n=mi).values, "total": float(b.data["total_variance"].isel(n=mi).values)}
+            req = {"fn": "boot", "n": n, "p": p, "r": int(r), "k": k, "D": bits(D), "idx": [int(v) for v in idx], "U": bits(U[:, :r]), "s": bits(s_),
+                   "V": bits(VT[:r, :].T), "model_scores": bits(Ms)}
+            reqs.append(req)
+            exps.append((exp, (n, p, k), {"n": n, "p": p, "k": k, "member": mi, "bootstrap_seed": bseed, "seed": seed}))
+    for (exp, (n, p, k), small), ans in zip(exps, ask(reqs)):
+        if ans.get("status") != "ok":
+            R.cmp("status", False, small, ans, "ok")
+            continue
+        for key, shp in {"decomposed": (n, p), "comps": (p, k), "scores": (n, k), "expvar": (k,)}.items():
+            got = unbits(ans[key], shp)
+            R.cmp(key, close(got, np.asarray(exp[key], dtype=float), 1e-8), small, got.ravel()[:5].tolist(), np.asarray(exp[key]).ravel()[:5].tolist())
+        R.cmp("total_variance", close(np.array([b2f(ans["total"])]), np.array([exp["total"]]), 1e-9), small, b2f(ans["total"]), exp["total"])
+    return R
+
+
 # ----------------------------------------------------------------------------------------------------- Scaler
 def corr_scaler(seed, tier):
     """preprocessing.Scaler.fit/transform/inverse_transform_data on (sample, feature) arrays against XM.scalerTransform /
@@ -1355,6 +1407,7 @@ CORR = {
     "rotator": corr_rotator,
     "whitener": corr_whitener,
     "complex": corr_complex,
+    "bootstrap": corr_bootstrap,
     "scaler": corr_scaler,
     "threshold": corr_threshold,
     "validators": corr_validators,
@@ -1388,7 +1441,7 @@ BY_PROP = {
     "C17": ["validators", "sanitizer"],
     "C18": ["formulas"],
     "C19": ["formulas"],
-    "C20": ["eof_pipeline"],
+    "C20": ["bootstrap", "eof_pipeline"],
 }
 
 
